@@ -750,7 +750,14 @@ func (w *World) Close(t *rapid.T, maxSteps int, roundBound uint64) CloseResult {
 		if p.DeliverAt.IsZero() {
 			lat := delta / 2 // scripted scenarios (no generator): a fixed latency within the bound
 			if t != nil {
-				lat = time.Duration(rapid.IntRange(0, 4).Draw(t, "lat")) * delta / 4
+				// StrictlyTimely: latencies stay strictly below the bound, so that start skew plus
+				// latency stays strictly below a phase timeout of 2*delta (at exact equality the
+				// outcome depends on whether the message or the timer is handled first)
+				hi := 4
+				if w.StrictlyTimely {
+					hi = 3
+				}
+				lat = time.Duration(rapid.IntRange(0, hi).Draw(t, "lat")) * delta / 4
 			}
 			base := p.SentAt
 			if base.Before(w.Now) {
